@@ -65,6 +65,19 @@ def stopAtL (target : Nat) : List Node → List Node × List Ev
 | c :: cs => let r := stopAt target c; let rs := stopAtL target cs; (r.1 :: rs.1, r.2 ++ rs.2)
 end
 
+mutual
+/-- `parallel.policy = p` assigned to the Parallel with the given id -/
+def setPolAt (target : Nat) (p : Policy) : Node → Node
+| n@(.leaf _ _ _ _) => n
+| .seq i m s c cs => .seq i m s c (setPolAtL target p cs)
+| .sel i m s c cs => .sel i m s c (setPolAtL target p cs)
+| .par i q s c cs => .par i (if i = target then p else q) s c (setPolAtL target p cs)
+| .dec i k s c => .dec i k s (setPolAt target p c)
+def setPolAtL (target : Nat) (p : Policy) : List Node → List Node
+| [] => []
+| c :: cs => setPolAt target p c :: setPolAtL target p cs
+end
+
 def mevStr : MEv → String
 | .preOnce => "preOnce" | .pre i => s!"pre{i}" | .vInit j => s!"vi{j}" | .vRun j i s => s!"vr{j}:{i}:{stStr s}"
 | .vFin j => s!"vf{j}" | .post i => s!"post{i}" | .postOnce => "postOnce"
@@ -106,6 +119,10 @@ def step (st : St) (line : String) : St × List String :=
       match st.tree.tick (mkEnv rest) st.w with
       | .ok (n', w', tr) => let st' := { st with tree := n', w := w' }; (st', report st' tr)
       | .error e => ({ st with dead := true }, ["ERR " ++ errStr e])
+  | ["setpol", i, pol] =>
+      match i.toNat?, parsePolicy pol with
+      | some i, some p => let st' := { st with tree := setPolAt i p st.tree }; (st', report st' [])
+      | _, _ => (st, ["bad-op"])
   | ["stop", i] =>
       match i.toNat? with
       | some i => let r := stopAt i st.tree; let st' := { st with tree := r.1 }; (st', report st' r.2)
